@@ -10,6 +10,10 @@ use std::task::{Context, Poll, Waker};
 use std::time::Duration;
 use tokio::time::Instant;
 
+/// simulated TCP (listeners, handshake, segmented byte streams) - child module, shares NetInner
+#[path = "net_tcp.rs"]
+pub mod tcp;
+
 /// Per-run record shared by the network, the monitor, and the scenario.
 pub struct Shared {
     pub t0: Instant,
@@ -79,6 +83,11 @@ pub trait Monitor: Send {
     fn classify(&mut self, from: SocketAddr, to: SocketAddr, data: &[u8], sh: &mut Shared) -> Vec<String>;
     /// called when a datagram is handed to the destination socket
     fn on_deliver(&mut self, _from: SocketAddr, _to: SocketAddr, _data: &[u8], _sh: &mut Shared) {}
+    /// a TCP segment (kind = "TCP:syn" | "TCP:synack" | "TCP:ack" | "TCP:data" | "TCP:fin" | "TCP:rst") is put on the wire;
+    /// returns further class tokens for it (the net itself adds "TCP" and the kind)
+    fn on_tcp(&mut self, _from: SocketAddr, _to: SocketAddr, _kind: &str, _data: &[u8], _sh: &mut Shared) -> Vec<String> {
+        Vec::new()
+    }
 }
 
 /// On-path rewriter supplied by a scenario: returns the datagrams to deliver instead of the original.
@@ -136,6 +145,8 @@ pub struct NetInner {
     capture_on: bool,
     /// total partition switched on by a scenario at run time: every non-injected datagram is dropped
     blackhole: bool,
+    /// simulated TCP: connections, listeners, which queue entries are TCP segments
+    pub tcp: tcp::TcpState,
 }
 
 pub struct SimNet {
@@ -246,6 +257,7 @@ impl SimNet {
                 capture: Vec::new(),
                 capture_on: false,
                 blackhole: false,
+                tcp: tcp::TcpState::new(plan),
             }),
             sh,
         })
@@ -285,6 +297,7 @@ impl SimNet {
     /// Install this network as the target of `UdpSocket::bind` inside rustrtc (PeerConnection / ICE rigs).
     pub fn install_binder(self: &Arc<Self>) {
         let me = self.clone();
+        me.install_tcp_binder();
         rustrtc::verif_hooks::set_udp_binder(Some(Arc::new(move |a: SocketAddr| {
             me.bind(a).map(|s| s as Arc<dyn SimUdp>)
         })));
@@ -555,6 +568,12 @@ impl SimNet {
                         }
                         let p = n.queue.remove(&k).unwrap();
                         n.delivered += 1;
+                        if let Some(seg) = n.tcp.take_seg(&k) {
+                            // a TCP segment: handshake / byte stream / FIN / RST handling instead of a socket queue
+                            drop(n);
+                            self.tcp_deliver(seg, p);
+                            continue;
+                        }
                         if n.capture_on {
                             let c = (p.from, p.to, p.data.clone());
                             n.capture.push(c);
